@@ -207,6 +207,9 @@ def keyword_split_hazard(text: str) -> bool:
 		if not operand and ((tok == 'is' and nxt == 'not') or (tok == 'not' and nxt == 'in')):
 			skip, operand, not_ok = True, True, False
 			continue
+		if not operand and tok == 'not' and nxt.startswith('in'):
+			# after the `not` of `not in` only the terminal IN is acceptable: `not inx` is read as `not in x`
+			return True
 		if operand:
 			if tok == 'not' and not_ok:
 				continue
@@ -233,7 +236,7 @@ def keyword_split_hazard(text: str) -> bool:
 def stream_lark_vs_rd(ctx: Ctx) -> Stream:
 	rng = ctx.sub_rng('lark-vs-rd')
 	app = common.MemApp(ctx.tmpdir())
-	n = ctx.scale(700, 12000)
+	n = ctx.scale(1500, 25000)
 	cases = []
 	hist: Counter[str] = Counter()
 	corpus_texts = [c['text'] for c in load_corpus() if c.get('stream') == 'lark-vs-rd']
@@ -320,7 +323,7 @@ def gen_prec_expr(rng: random.Random, depth: int, counter: list[int]) -> str:
 
 def stream_pygroup(ctx: Ctx) -> Stream:
 	rng = ctx.sub_rng('pygroup')
-	n = ctx.scale(600, 10000)
+	n = ctx.scale(1500, 20000)
 	exprs = []
 	for i in range(n):
 		exprs.append(gen_prec_expr(rng, 1 + i % (6 if not ctx.thorough else 8), [0]))
@@ -756,7 +759,7 @@ def stream_classify(ctx: Ctx) -> Stream:
 	from rogw.tranp.syntax.ast.finder import ASTFinder
 	rng = ctx.sub_rng('classify')
 	app = common.MemApp(ctx.tmpdir())
-	n = ctx.scale(45, 700)
+	n = ctx.scale(90, 1200)
 	cases = []
 	hist: Counter[str] = Counter()
 	sources = [(c['source'], 'corpus') for c in load_corpus() if c.get('stream') == 'classify']
@@ -797,6 +800,9 @@ SPECIAL_PROGRAMS = [
 from a.b import (c, d as e)
 T = TypeVar('T')
 Alias: TypeAlias = dict[str, int]
+Mode: TypeAlias = Literal['r', 'w']
+Row = TypedDict('Row', {'k': int, 'v': str})
+flag: Literal[1] = 1
 class Color(Enum):
 	RED = 1
 	BLUE = 0x2
@@ -1121,6 +1127,14 @@ def node_class(n: Any) -> str:
 	return t.__name__
 
 
+def access_key(node: Any, prop: str, e: BaseException) -> str:
+	name = exc_enum(e)
+	if name == 'Errors.UnresolvedNode' and len(e.args) >= 2 and isinstance(e.args[1], str):
+		# no class accepts this tag at this position: keyed by the tag, wherever it occurs
+		return f"UnresolvedNode:{e.args[1].split('.')[-1].split('[')[0]}"
+	return f'{node_class(node)}.{prop}:{name}'
+
+
 class W:
 	"""A node seen through its properties: every property access / helper call that raises is reported with the class and
 	property that raised (finding key), results are wrapped again."""
@@ -1142,13 +1156,13 @@ class W:
 		try:
 			v = getattr(node, k)
 		except Exception as e:  # noqa: BLE001
-			raise NodeAccessError(f'{node_class(node)}.{k}:{exc_enum(e)}', str(e)[:300]) from e
+			raise NodeAccessError(access_key(node, k, e), str(e)[:300]) from e
 		if callable(v):
 			def call(*a: Any) -> Any:
 				try:
 					return W.wrap(v(*a))
 				except Exception as e:  # noqa: BLE001
-					raise NodeAccessError(f'{node_class(node)}.{k}():{exc_enum(e)}', str(e)[:300]) from e
+					raise NodeAccessError(access_key(node, f'{k}()', e), str(e)[:300]) from e
 			return call
 		return W.wrap(v)
 
@@ -1342,8 +1356,16 @@ def first_diff(a: str, b: str) -> str:
 	return f'@{i}: tranp …{a[max(0, i - 60):i + 80]}… vs cpython …{b[max(0, i - 60):i + 80]}…'
 
 
+CANON_VOCAB = {'Module', 'Expr', 'Assign', 'AssignChain', 'AnnAssign', 'AugAssign', 'Return', 'Pass', 'Break', 'Continue', 'Assert', 'Raise', 'Delete', 'If', 'Elif',
+	'While', 'For', 'Try', 'Handler', 'With', 'Item', 'Def', 'Class', 'Import', 'alias', 'Decorator', 'P', 'TName', 'TAttr', 'TNone', 'TEllipsis', 'TGeneric', 'TList',
+	'TUnion', 'pos', 'kw', 'star', 'dstar', 'Name', 'Const', 'Attr', 'Call', 'Index', 'Slice', 'Keys', 'UnaryOp', 'BinOp', 'BoolOp', 'Compare', 'cmp', 'IfExp',
+	'Lambda', 'List', 'Tuple', 'Dict', 'pair', 'Starred', 'ListComp', 'DictComp', 'for', 'Yield', 'Ellipsis', 'None', 'decl', 'ref',
+	'Function', 'Method', 'ClassMethod', 'Constructor', 'Closure', *OP_NAMES, 'is_not', 'not_in'}
+
+
 def construct_key(src: str, a: str, b: str) -> str:
-	"""a stable name for the failing construct: the innermost tags of both canons at the first difference"""
+	"""a stable name for the failing construct: the innermost canon tag around the first difference plus, when they are part of
+	the canon vocabulary (never identifiers or literals), the first differing words of both sides"""
 	i = 0
 	while i < min(len(a), len(b)) and a[i] == b[i]:
 		i += 1
@@ -1351,7 +1373,14 @@ def construct_key(src: str, a: str, b: str) -> str:
 	def tag_at(s: str) -> str:
 		j = s.rfind('(', 0, i + 1)
 		return s[j + 1:].split(' ')[0].split(')')[0] if j >= 0 else '?'
-	return f'canon:{tag_at(a)}/{tag_at(b)}'
+
+	def word_at(s: str) -> str:
+		j = i
+		while j > 0 and s[j - 1] not in ' ()[]':
+			j -= 1
+		w = re.split(r'[ ()\[\]]', s[j:], maxsplit=1)[0]
+		return w if w in CANON_VOCAB else '*'
+	return f'canon:{tag_at(a)}:{word_at(a)}/{tag_at(b)}:{word_at(b)}'
 
 
 def check_source(app: common.MemApp, src: str) -> tuple[str, str | None, str | None]:
@@ -1386,21 +1415,40 @@ def check_source(app: common.MemApp, src: str) -> tuple[str, str | None, str | N
 	return 'diff', construct_key(src, tr, py), first_diff(tr, py)
 
 
-def shrink_source(app: common.MemApp, src: str, key: str) -> str:
-	"""drop whole top-level statements (with their indented bodies) while the same finding key reproduces"""
-	lines = src.split('\n')
-	chunks: list[list[str]] = []
-	for ln in lines:
-		if ln[:1] not in (' ', '\t', '') and not ln.startswith(('elif', 'else', 'except')) or not chunks:
-			chunks.append([ln])
-		else:
-			chunks[-1].append(ln)
+def shrink_source(app: common.MemApp, src: str, key: str, budget: int = 250) -> str:
+	"""delete statements (a line together with its more deeply indented followers) while the same finding key reproduces"""
+	lines = [ln for ln in src.split('\n') if ln.strip()]
 
-	def fails(cs: list[list[str]]) -> bool:
-		s = '\n'.join('\n'.join(c) for c in cs) + '\n'
-		return check_source(app, s)[1] == key
-	small = common.shrink_list(chunks, fails, max_steps=120)
-	return '\n'.join('\n'.join(c) for c in small) + '\n'
+	def indent(ln: str) -> int:
+		return len(ln) - len(ln.lstrip(' \t'))
+
+	def fails(ls: list[str]) -> bool:
+		return bool(ls) and check_source(app, '\n'.join(ls) + '\n')[1] == key
+	steps = 0
+	changed = True
+	while changed and steps < budget:
+		changed = False
+		i = 0
+		while i < len(lines) and steps < budget:
+			j = i + 1
+			while j < len(lines) and indent(lines[j]) > indent(lines[i]):
+				j += 1
+			cand = lines[:i] + lines[j:]
+			steps += 1
+			if fails(cand):
+				lines = cand
+				changed = True
+			else:
+				# keep the header, try to replace its body by `pass`
+				if j > i + 1 and lines[i].rstrip().endswith(':'):
+					body_indent = lines[i + 1][:indent(lines[i + 1])]
+					cand = lines[:i + 1] + [body_indent + 'pass'] + lines[j:]
+					steps += 1
+					if cand != lines and fails(cand):
+						lines = cand
+						changed = True
+				i += 1
+	return '\n'.join(lines) + '\n'
 
 
 def load_corpus() -> list[dict[str, Any]]:
@@ -1422,53 +1470,50 @@ def search_canon(ctx: Ctx) -> SearchResult:
 	app = common.MemApp(ctx.tmpdir())
 	hist: Counter[str] = Counter()
 	seen_keys: set[str] = set()
-	sources: list[tuple[str, str]] = [(c['source'], f"corpus:{c['file']}") for c in load_corpus() if c.get('stream') == 'search']
-	n = ctx.scale(260, 4500)
+	corpus = [c for c in load_corpus() if c.get('stream') == 'search']
+	corpus_keys = {f"corpus:{c['file']}": c.get('key') for c in corpus}
+	sources: list[tuple[str, str]] = [(c['source'], f"corpus:{c['file']}") for c in corpus]
+	n = ctx.scale(500, 9000)
 	for i in range(n):
 		g = Gen(rng, 1 + i % 5, rich=True)
 		sources.append((g.module(), f'gen#{i}'))
 	# expression-only programs: deep operator/primary nesting
-	for i in range(ctx.scale(200, 3000)):
+	for i in range(ctx.scale(400, 6000)):
 		g = Gen(rng, 1)
 		sources.append((f'{g.fresh("r")} = {g.expr(2 + i % 4)}\n', f'expr#{i}'))
 	distinct: set[int] = set()
+	corpus_findings: list[Finding] = []
+	constructs: Counter[str] = Counter()
 	for src, name in sources:
 		res.cases += 1
 		distinct.add(hash(src))
 		status, key, detail = check_source(app, src)
+		if status in ('diff', 'raise') and corpus_keys.get(name):
+			# a committed witness of a defect (CONVENTIONS rules 3, 5, 7) keeps the name it was filed under
+			key = corpus_keys[name]
 		hist[status.split(':')[0] + (':' + status.split(':')[1] if status.startswith('skip') else '')] += 1
 		if status in ('diff', 'raise') and key and key not in seen_keys:
 			seen_keys.add(key)
 			small = shrink_source(app, src, key) if not name.startswith('corpus') else src
-			res.findings.append(Finding(key=key, what=f'{status} on {name}: {detail}', replay={'source': small, 'origin': name, 'detail': detail}))
+			f = Finding(key=key, what=f'{status} on {name}: {detail}', replay={'source': small, 'origin': name, 'detail': detail})
+			# committed defect witnesses are replayed first but listed last, so that new findings get the VIOLATION lines
+			(corpus_findings if name.startswith('corpus') else res.findings).append(f)
+		if status == 'ok':
+			with warnings.catch_warnings():
+				warnings.simplefilter('ignore')
+				for node in ast.walk(ast.parse(src)):
+					if isinstance(node, (ast.stmt, ast.expr, ast.comprehension, ast.ExceptHandler, ast.arg, ast.keyword)):
+						constructs[type(node).__name__] += 1
 		if status == 'ok' and len(res.samples) < 2:
 			res.samples.append({'origin': name, 'source': src[:300]})
+	res.findings.extend(corpus_findings)
 	res.distinct = len(distinct)
-	res.histogram = dict(hist)
+	res.histogram = {**dict(hist), **{f'construct:{k}': v for k, v in sorted(constructs.items())}}
 	judged = hist.get('ok', 0) + hist.get('diff', 0) + hist.get('raise', 0)
 	gen_total = sum(1 for _, nm in sources if not nm.startswith('corpus'))
 	if gen_total and judged < 0.7 * gen_total:
 		res.findings.append(Finding(key='generator-outside-common-language', what=f'only {judged}/{gen_total} generated programs are accepted by both parsers: {dict(hist)}', replay={'histogram': dict(hist)}))
 	res.note = 'programs with statement nesting, defs/classes/decorators/params, calls, chains, displays, comprehensions, lambdas, ternaries; random layout and redundant parentheses; function kinds and decl/ref roles computed on the CPython side from scoping rules'
-	return res
-
-
-def search_classification_witnesses(ctx: Ctx) -> SearchResult:
-	"""Replays the witnesses of the `_counterexample` theorems on the real code (CONVENTIONS rule 3)."""
-	res = SearchResult('function-kind classification of the counter-example witnesses on the real node tree vs Python scoping')
-	app = common.MemApp(ctx.tmpdir())
-	witnesses = [
-		('classify:constructor-outside-class', 'def __init__(x: int) -> None:\n\tpass\n'),
-		('classify:classmethod-not-first-decorator', 'class A:\n\t@other\n\t@classmethod\n\tdef f(cls) -> None:\n\t\tpass\n'),
-		('classify:closure-with-self-parameter', 'def outer() -> None:\n\tdef inner(self) -> None:\n\t\tpass\n'),
-	]
-	for key, src in witnesses:
-		res.cases += 1
-		status, _, detail = check_source(app, src)
-		res.histogram[status] = res.histogram.get(status, 0) + 1
-		if status != 'ok':
-			res.findings.append(Finding(key=key, what=f'{status}: {detail}', replay={'source': src, 'detail': detail}))
-	res.distinct = len(witnesses)
 	return res
 
 
@@ -1500,7 +1545,7 @@ def run(ctx: Ctx) -> int:
 		with ctx.timed('correspondence'):
 			streams = [stream_lark_vs_rd(ctx), stream_pygroup(ctx), stream_classify(ctx)]
 	with ctx.timed('search'):
-		searches = [search_canon(ctx), search_classification_witnesses(ctx)]
+		searches = [search_canon(ctx)]
 	return common.finish(ctx, proof, streams, searches,
 		translate_ok=tr_ok, translate_msg=tr_msg,
 		statements=STATEMENTS,
